@@ -15,13 +15,53 @@ class _LowerIfExp(ast.NodeTransformer):
     see one form (behaviour-preserving: the test is evaluated once, then exactly one arm)"""
     def __init__(self):
         self.depth = 0
+        self.locals = []
 
     def visit_FunctionDef(self, node):
         self.depth += 1
+        loc = set()
+        a = node.args
+        for x in a.posonlyargs + a.args + a.kwonlyargs + [y for y in (a.vararg, a.kwarg) if y is not None]:
+            loc.add(x.arg)
+        for n in ast.walk(node):
+            if isinstance(n, ast.Name) and isinstance(n.ctx, (ast.Store, ast.Del)):
+                loc.add(n.id)
+            elif isinstance(n, ast.ExceptHandler) and n.name:
+                loc.add(n.name)
+        self.locals.append(loc)
         self.generic_visit(node)
+        self.locals.pop()
         self.depth -= 1
         return node
     visit_AsyncFunctionDef = visit_FunctionDef
+
+    # comparisons: the operand that varies (locals, calls, self.<field>) on the left, the fixed one (constants, module-level
+    # names, <module>.<NAME>) on the right -- `None is x`, `consts.MSG_REPLY == msg`, `0 < count` are normalised
+    def _rank(self, e):
+        if isinstance(e, ast.Constant):
+            return 3
+        if isinstance(e, ast.Name):
+            return 1 if any(e.id in l for l in self.locals) else 2
+        if isinstance(e, ast.Attribute):
+            b = e
+            while isinstance(b, ast.Attribute):
+                b = b.value
+            if isinstance(b, ast.Name):
+                return 1 if (b.id in ("self", "cls") or any(b.id in l for l in self.locals)) else 2
+            return 1
+        if isinstance(e, ast.Tuple) and all(isinstance(x, ast.Constant) for x in e.elts):
+            return 3
+        return 1
+
+    def visit_Compare(self, node):
+        self.generic_visit(node)
+        if self.depth and len(node.ops) == 1:
+            op, l, r = node.ops[0], node.left, node.comparators[0]
+            flip = {ast.Lt: ast.Gt, ast.Gt: ast.Lt, ast.LtE: ast.GtE, ast.GtE: ast.LtE, ast.Eq: ast.Eq, ast.NotEq: ast.NotEq,
+                    ast.Is: ast.Is, ast.IsNot: ast.IsNot}
+            if type(op) in flip and self._rank(l) > self._rank(r):
+                node.left, node.comparators, node.ops = r, [l], [flip[type(op)]()]
+        return node
 
     def _split(self, node, mk):
         v = node.value
@@ -33,11 +73,13 @@ class _LowerIfExp(ast.NodeTransformer):
         return new
 
     def visit_Assign(self, node):
+        self.generic_visit(node)
         if self.depth and isinstance(node.value, ast.IfExp) and len(node.targets) == 1 and isinstance(node.targets[0], ast.Name):
             return self._split(node, lambda val: ast.Assign(targets=[A.clone(node.targets[0])], value=val, type_comment=None))
         return node
 
     def visit_Return(self, node):
+        self.generic_visit(node)
         if self.depth and isinstance(node.value, ast.IfExp):
             return self._split(node, lambda val: ast.Return(value=val))
         return node
